@@ -259,9 +259,34 @@ func genC17(t *rapid.T) *c17Case {
 	if c.Draft7 {
 		doc.Set("$schema", jv.StrV(refmodel.URI7))
 	}
-	doc.Set(g.defsKW, jv.ObjV(jv.Member{K: "host", V: host}))
-	c.Doc = doc
+	defs := jv.ObjV(jv.Member{K: "host", V: host})
 	var locs []c17loc
+	if rapid.IntRange(0, 2).Draw(t, "toplevelkeys") == 0 {
+		// definitions reachable by a two-segment pointer, under names that are each other's
+		// escaped form: "a/b" beside "a~1b", "~" beside "~0", ...
+		pairs := [][2]string{{"a/b", "a~1b"}, {"~", "~0"}, {"x~y/z", "x~0y~1z"}, {"~1", "~01"}, {"/", "~1"}, {"m~n", "m~0n"}, {"application/json", "application~1json"}}
+		for i, k := 0, rapid.IntRange(1, 3).Draw(t, "npairs"); i < k; i++ {
+			p := pairs[rapid.IntRange(0, len(pairs)-1).Draw(t, "pair")]
+			which := rapid.IntRange(0, 2).Draw(t, "pairwhich") // 0: both, 1: only the plain one, 2: only the escaped-looking one
+			for j, key := range p {
+				if (which == 1 && j == 1) || (which == 2 && j == 0) || defs.Has(key) {
+					continue
+				}
+				leaf := g.leaf()
+				defs.Set(key, leaf)
+				l := c17loc{ptr: "/" + refmodel.EscapePtr(g.defsKW) + "/" + refmodel.EscapePtr(key), segs: 2, esc: true, node: leaf}
+				locs = append(locs, l)
+				c.Probes = append(c.Probes, c17Probe{Ref: "#" + fragmentEncode(t, l.ptr), Intended: l.ptr, Segs: 2, Escaped: true})
+			}
+			if which == 2 && !defs.Has(p[0]) {
+				// only the escaped-looking name exists: the pointer that spells the plain name names nothing
+				c.Probes = append(c.Probes, c17Probe{Ref: "#" + fragmentEncode(t, "/"+refmodel.EscapePtr(g.defsKW)+"/"+p[1]), Negative: true, Why: "key exists only in its escaped-looking spelling"})
+			}
+		}
+		c.Markers = g.markers
+	}
+	doc.Set(g.defsKW, defs)
+	c.Doc = doc
 	locations(host, "/"+refmodel.EscapePtr(g.defsKW)+"/host", 2, false, false, &locs)
 	np := rapid.IntRange(2, 6).Draw(t, "nprobes")
 	for i := 0; i < np; i++ {
